@@ -300,6 +300,23 @@ def check_c06(seed, tier):
                         if d:
                             viol.append({"case": {"cfg": cfg, "cache_written_with": w, "read_with": rpc},
                                          "what": "tree read through the index cache differs from the uncached one: " + d})
+                    # the VALUE of the chunk size matters, not the Python type that carries it: where the reader accepts a NumPy
+                    # integer at all (it rejects some — not judged here), the tree and the advertised chunking are those of the
+                    # plain int
+                    for rpc in rl:
+                        for np_rpc in (np.int64(rpc), np.int32(min(rpc, 2**31 - 1))):
+                            for cached in ((True, False) if where == "local" else (False,)):
+                                evals += 1
+                                distinct.add((n, m, level, "numpy-rpc", type(np_rpc).__name__, int(np_rpc), cached))
+                                try:
+                                    t = _open(path, use_cache=cached, records_per_chunk=np_rpc)
+                                except Exception:  # noqa: BLE001
+                                    continue
+                                want_t = _open(path, use_cache=False, records_per_chunk=int(np_rpc))
+                                d = treecmp.diff(treecmp.fingerprint_tree(want_t), treecmp.fingerprint_tree(t))
+                                if d:
+                                    viol.append({"case": {"cfg": cfg, "records_per_chunk": f"{type(np_rpc).__name__}({int(np_rpc)})", "use_cache": cached},
+                                                 "what": "a NumPy-integer chunk size is accepted but not treated as that integer: " + d})
                 finally:
                     oracle_cache.wipe_user_cache()
             except Exception as e:  # noqa: BLE001
